@@ -10,23 +10,23 @@ Open Scope Qc_scope.
    equations, terms and delayed factors), solver kind, time and state, the compiled function evaluates every delayed term as
    component pos(x) of hist(t - tau), t in time units (t for adaptive solvers, t*dt for fixed-step ones).
    True of the code since the repairs D38 (textual replace in _expr_to_str) and D39 (step size written exactly). *)
-Theorem C10_full : forall (hist : Qc -> list Qc) (pos : nat -> nat) (par : nat -> Qc) m md t y,
-  impl_eval hist pos par m md t y = spec_eval hist pos par m md t y.
+Theorem C10_full : forall (hist : Qc -> list Qc) (pos : nat -> nat) (par dpar : nat -> Qc) m md t y,
+  impl_eval hist pos par dpar m md t y = spec_eval hist pos par dpar m md t y.
 Proof. exact dde_full. Qed.
 Print Assumptions C10_full.
 
 (* Documentation of the behaviour before the repairs: it met the specification only inside two guards ... *)
-Theorem C10_before_fix_partial : forall (hist : Qc -> list Qc) (pos : nat -> nat) (par : nat -> Qc) m md t y,
+Theorem C10_before_fix_partial : forall (hist : Qc -> list Qc) (pos : nat -> nat) (par dpar : nat -> Qc) m md t y,
   past_terms_printable m = true -> dt_fmt_exact md = true ->
-  impl_eval_before_fix hist pos par m md t y = Some (spec_eval_e hist pos par m md t y).
+  impl_eval_before_fix hist pos par dpar m md t y = Some (spec_eval_e hist pos par dpar m md t y).
 Proof. exact before_fix_refines. Qed.
 Print Assumptions C10_before_fix_partial.
 
 (* ... D38:  z' = a + k0 - past(z, 1/2)  was not delivered (the real code read a(t-k0)) *)
-Theorem C10_before_fix_refuted_printable : exists (hist : Qc -> list Qc) pos par m md t y,
-  impl_eval_before_fix hist pos par m md t y <> Some (spec_eval_e hist pos par m md t y).
+Theorem C10_before_fix_refuted_printable : exists (hist : Qc -> list Qc) pos par dpar m md t y,
+  impl_eval_before_fix hist pos par dpar m md t y <> Some (spec_eval_e hist pos par dpar m md t y).
 Proof.
-  exists (fun _ => [0; 0; 0]), (fun x => x), (fun _ => 0),
+  exists (fun _ => [0; 0; 0]), (fun x => x), (fun _ => 0), (fun _ => 0),
          [[(-(1), [FPar 0; FVar 0])]; [(1, [FVar 0]); (1, [FPar 0]); (-(1), [FPast 1 (DLit (mkq 1 2))])]; [(1, [FVar 1])]],
          EAdaptive, 0, [0; 0; 0].
   vm_compute. intros H. discriminate H.
@@ -34,10 +34,10 @@ Qed.
 Print Assumptions C10_before_fix_refuted_printable.
 
 (* ... D39: a step size that did not survive '{dt:.10e}' (dt = 1/2 + 2^-40 was written as 5.0000000000e-01) *)
-Theorem C10_before_fix_refuted_dt_format : exists (hist : Qc -> list Qc) pos par m md t y,
-  past_terms_printable m = true /\ impl_eval_before_fix hist pos par m md t y <> Some (spec_eval_e hist pos par m md t y).
+Theorem C10_before_fix_refuted_dt_format : exists (hist : Qc -> list Qc) pos par dpar m md t y,
+  past_terms_printable m = true /\ impl_eval_before_fix hist pos par dpar m md t y <> Some (spec_eval_e hist pos par dpar m md t y).
 Proof.
-  exists (polyhist [[mkq 10 1; mkq 1 1]; [mkq 20 1; mkq 2 1]]), (fun x => x), (fun _ => 0),
+  exists (polyhist [[mkq 10 1; mkq 1 1]; [mkq 20 1; mkq 2 1]]), (fun x => x), (fun _ => 0), (fun _ => 0),
          [[(-(1), [FVar 0]); (1, [FPast 1 (DLit (mkq 1 4))])]; [(1, [FVar 0])]],
          (EFixed (mkq 549755813889 1099511627776) (mkq 1 2)), (mkq 8 1), [mkq 1 1; mkq 2 1].
   split; [vm_compute; reflexivity|]. intros H. apply orow_eqb_some in H. vm_compute in H. discriminate H.
@@ -45,10 +45,10 @@ Qed.
 Print Assumptions C10_before_fix_refuted_dt_format.
 
 (* every single occurrence: the history variable that replaces past(x, d) is bound to nth (pos x) (hist (t_time - d)) *)
-Theorem C10_past_occurrence : forall (hist : Qc -> list Qc) pos par m tb cm x d,
+Theorem C10_past_occurrence : forall (hist : Qc -> list Qc) pos (par dpar : nat -> Qc) m tb cm x d,
   compile m = (tb, cm) -> In (x, d) (past_keys m) ->
   exists k, slot tb x k = Some d /\
-    forall (md : emode) t, hist_val hist pos par tb md t x k = nth (pos x) (hist (t_emit md t - dval par d)) 0.
+    forall (md : emode) t, hist_val hist pos dpar tb md t x k = nth (pos x) (hist (t_emit md t - dval dpar d)) 0.
 Proof. exact past_occurrence. Qed.
 Print Assumptions C10_past_occurrence.
 
@@ -60,6 +60,30 @@ Theorem C10_alloc_bijective : forall m tb cm, compile m = (tb, cm) ->
      ((x1, k1) = (x2, k2) <-> (x1, d1) = (x2, d2))).
 Proof. exact alloc_bijective. Qed.
 Print Assumptions C10_alloc_bijective.
+
+(* ------------------------------------------------------------------------------------------------------------
+   Vector-valued delayed variables (vectorize=True, n units): hist(t_time - d)[start x : start x + n].
+   Unit u reads component start x + u of hist(t_time - tau_u). *)
+Definition C10_vec_full_statement : Prop :=
+  forall (hist : Qc -> list Qc) start (par dpar : nat -> nat -> Qc) n m md t y,
+    vimpl_eval hist start par dpar n m md t y = vspec_eval hist start par dpar n m md t y.
+
+(* partial: a delay PARAMETER must have the same value on all units (finding C10-F5: the code reads d[0] for every unit) *)
+Theorem C10_vec_partial : forall (hist : Qc -> list Qc) start (par dpar : nat -> nat -> Qc) n m md t y,
+  (forall p u, (u < n)%nat -> dpar p u = dpar p 0%nat) ->
+  vimpl_eval hist start par dpar n m md t y = vspec_eval hist start par dpar n m md t y.
+Proof. exact vec_refines. Qed.
+Print Assumptions C10_vec_partial.
+
+(* F5: two units, x' = x(t - d0) with d0 = (1, 2), hist(t) = (t, t): unit 1 must read hist(t-2) and reads hist(t-1) *)
+Theorem C10_vec_refuted_delay_parameter : ~ C10_vec_full_statement.
+Proof.
+  intros H.
+  specialize (H (fun t => [t; t]) (fun _ => 0%nat) (fun _ _ => 0) (fun _ u => match u with O => 1 | _ => 1 + 1 end) 2%nat
+                [[(1, [FPast 0 (DPar 0)])]] Adaptive (mkq 5 1) [0; 0]).
+  apply (f_equal (map (map this))) in H. vm_compute in H. discriminate H.
+Qed.
+Print Assumptions C10_vec_refuted_delay_parameter.
 
 (* ------------------------------------------------------------------------------------------------------------
    Delayed edges under an adaptive solver become past(source, delay). *)
@@ -91,25 +115,51 @@ Qed.
 Print Assumptions C10_before_fix_refuted_edge_delay_one.
 
 (* ------------------------------------------------------------------------------------------------------------
-   run(solver='euler'): the loop  rhs = func(i, y, hist); y += dt*rhs; hist.update((i+1)*dt, y)  over the DDEHistory
+   run(solver='euler' | 'heun') (sc = Euler | Heun; Heun evaluates both stages with the same step counter, so both read
+   hist(i*dt - tau)): the loop  y = step(func(i, ., hist), y); hist.update((i+1)*dt, y)  over the DDEHistory
    model (any initial capacity, any garbage in fresh buffer rows) IS the method-of-steps recurrence whose history is
    the piecewise-linear interpolant of the steps computed so far. *)
-Theorem C10_run_refines : forall pos par m dt junk, 0 < dt ->
-  forall cap n y0, run_impl pos par m dt junk cap n y0 = Some (run_spec pos par m dt n y0).
+Theorem C10_run_refines : forall sc pos par dpar m dt junk, 0 < dt ->
+  forall cap n y0, run_impl sc pos par dpar m dt junk cap n y0 = Some (run_spec sc pos par dpar m dt n y0).
 Proof. exact run_refines. Qed.
 Print Assumptions C10_run_refines.
 
 (* the history of that recurrence: constant y0 up to the start ... *)
-Theorem C10_prehistory : forall pos par m dt n y0 t, t <= 0 ->
-  interp (spec_recs pos par m dt n 0 y0 [(0, y0)]) t = y0.
+Theorem C10_prehistory : forall sc pos par dpar m dt n y0 t, t <= 0 ->
+  interp (spec_recs sc pos par dpar m dt n 0 y0 [(0, y0)]) t = y0.
 Proof. exact prehistory_constant. Qed.
 Print Assumptions C10_prehistory.
 
 (* ... recorded at the times (i+1)*dt, one record per step (what interp does between them is C19_between/C19_at_record) *)
-Theorem C10_record_times : forall pos par m dt n i y recs,
-  times (spec_recs pos par m dt n i y recs) = times recs ++ map (fun k => qn k * dt) (seq (S i) n).
+Theorem C10_record_times : forall sc pos par dpar m dt n i y recs,
+  times (spec_recs sc pos par dpar m dt n i y recs) = times recs ++ map (fun k => qn k * dt) (seq (S i) n).
 Proof. exact spec_recs_times. Qed.
 Print Assumptions C10_record_times.
+
+(* ------------------------------------------------------------------------------------------------------------
+   Adaptive run (scipy dopri5 + solout -> DDEHistory.update): the arithmetic is floating point, the bookkeeping is exact.
+   Which rows a lookup reads is decided by qcase on the update times recorded so far (tie: the recorded (query, answer)
+   pairs of a real run are recomputed from exactly these rows); that it is the interpolant is C19 (query_is_interp). *)
+Theorem C10_query_rows : forall h t,
+  query h t = match qcase (ts h) t with
+              | (0%nat, _) => nth 0 (buf h) []
+              | (1%nat, _) => nth (History.n h - 1) (buf h) []
+              | (_, idx) => lerp (nth idx (ts h) 0) (nth idx (buf h) []) (nth (S idx) (ts h) 0) (nth (S idx) (buf h) []) t
+              end.
+Proof. exact query_by_qcase. Qed.
+Print Assumptions C10_query_rows.
+
+(* an interpolating lookup brackets t strictly on the right for ANY list of update times, so repeated update times (the
+   adaptive path records every output time twice) never produce a zero-width interval *)
+Theorem C10_lookup_interval_nonempty : forall tsl t idx, qcase tsl t = (2%nat, idx) ->
+  nth idx tsl 0 <= t /\ t < nth (S idx) tsl 0.
+Proof. exact qcase_between_bracket. Qed.
+Print Assumptions C10_lookup_interval_nonempty.
+
+Theorem C10_query_is_interpolant : forall h t, Inv h -> incr (ts h) ->
+  query h t = interp (combine (ts h) (recorded h)) t.
+Proof. exact query_is_interp. Qed.
+Print Assumptions C10_query_is_interpolant.
 
 (* ------------------------------------------------------------------------------------------------------------
    parser._preprocess_dde_syntax on token lists: a call f(t - d) whose delay d is non-empty and contains no ')' becomes
@@ -139,7 +189,7 @@ Example C10_nonvacuous :
             [(1, [FVar 0])]; [(1, [FVar 1])]] in
   let hist := polyhist [[mkq 10 1; mkq 1 1]; [mkq 20 1; mkq 2 1]; [mkq 30 1; 0; mkq 4 1]] in
   map fst (fst (compile m)) = [1%nat; 2%nat] /\
-  impl_eval hist (fun x => x) (fun _ => mkq 3 4) m (Fixed (mkq 1 8)) (mkq 8 1) [mkq 1 1; mkq 2 1; mkq 3 1]
+  impl_eval hist (fun x => x) (fun _ => 0) (fun _ => mkq 3 4) m (Fixed (mkq 1 8)) (mkq 8 1) [mkq 1 1; mkq 2 1; mkq 3 1]
     = [mkq 3729 4; mkq 1 1; mkq 2 1].
 Proof. vm_compute. repeat split; reflexivity. Qed.
 Print Assumptions C10_nonvacuous.
